@@ -1,7 +1,562 @@
 package main
 
-// Replay of counterexamples against the real code (go test -overlay).
+// Replay of counterexamples against the real code.
+//
+// Scope (stated in DESIGN.md §11): functions whose parameters and results are
+// scalars (integers of any size, bool, named integer types) or `value`
+// interfaces holding an int, a bool or nil, and whose failed clause does not
+// read the heap. For these the solver's model is turned into a call of the real
+// function (an in-package Go test injected with `go test -overlay`, nothing is
+// written into the repository), and
+//   - for a panic site (`safe`): the violation is confirmed if the call panics;
+//   - for a postcondition: the clause is instantiated with the concrete inputs
+//     and the outputs the real code produced and decided by the solver as a
+//     ground formula; the violation is confirmed if the clause is false.
+// Everything else is reported with `no-failing-input-found`.
 
-func tryReplay(rep *report, a *aggObl, path string) bool { return false }
+import (
+	"context"
+	"encoding/json"
+	"fmt"
+	"go/constant"
+	"go/types"
+	"os"
+	"os/exec"
+	"path/filepath"
+	"regexp"
+	"strconv"
+	"strings"
+	"time"
 
-func cmdReplay(args []string) int { return 0 }
+	"golang.org/x/tools/go/ssa"
+)
+
+type replayInput struct {
+	Name string
+	Term string
+	Typ  types.Type
+}
+
+type replayRecord struct {
+	Function string            `json:"function"`
+	Inputs   map[string]string `json:"inputs"`
+	GoTest   string            `json:"go_test"`
+	Dir      string            `json:"dir"`
+	Output   string            `json:"output"`
+	Ground   string            `json:"ground_check,omitempty"`
+	Verdict  string            `json:"verdict"`
+}
+
+// replayable type classes
+func replayClass(t types.Type) string {
+	if t == nil {
+		return ""
+	}
+	if isValIface(t) {
+		return "val"
+	}
+	switch u := t.Underlying().(type) {
+	case *types.Basic:
+		switch {
+		case u.Info()&types.IsInteger != 0:
+			return "int"
+		case u.Info()&types.IsBoolean != 0:
+			return "bool"
+		}
+	case *types.Interface:
+		if types.Identical(t, types.Universe.Lookup("error").Type()) {
+			return "err"
+		}
+	}
+	return ""
+}
+
+func goTypeName(t types.Type) string {
+	return types.TypeString(t, func(p *types.Package) string {
+		if p.Path() == bclPath || p.Path() == mainPath {
+			return ""
+		}
+		return p.Name()
+	})
+}
+
+var reNum = regexp.MustCompile(`^\(?\s*-?\s*\d+\s*\)?$`)
+
+// smtIntValue parses 5, (- 5), #x0f, #b101.
+func smtIntValue(s string) (string, bool) {
+	s = strings.TrimSpace(s)
+	if strings.HasPrefix(s, "#x") {
+		v, err := strconv.ParseUint(s[2:], 16, 64)
+		if err != nil {
+			return "", false
+		}
+		return fmt.Sprint(v), true
+	}
+	if strings.HasPrefix(s, "#b") {
+		v, err := strconv.ParseUint(s[2:], 2, 64)
+		if err != nil {
+			return "", false
+		}
+		return fmt.Sprint(v), true
+	}
+	if strings.HasPrefix(s, "(-") {
+		in := strings.TrimSpace(strings.TrimSuffix(strings.TrimPrefix(s, "(-"), ")"))
+		if _, err := strconv.ParseUint(in, 10, 64); err == nil {
+			return "-" + in, true
+		}
+		return "", false
+	}
+	if _, err := strconv.ParseUint(s, 10, 64); err == nil {
+		return s, true
+	}
+	return "", false
+}
+
+// goLiteral turns a model value into a Go expression of type t.
+func goLiteral(val string, t types.Type) (string, bool) {
+	val = strings.TrimSpace(val)
+	switch replayClass(t) {
+	case "int":
+		n, ok := smtIntValue(val)
+		if !ok {
+			return "", false
+		}
+		// unsigned bit patterns of signed bv types
+		if b, isB := t.Underlying().(*types.Basic); isB && b.Info()&types.IsUnsigned == 0 && !strings.HasPrefix(n, "-") {
+			if u, err := strconv.ParseUint(n, 10, 64); err == nil && u > 1<<63-1 {
+				return fmt.Sprintf("%s(%d)", goTypeName(t), int64(u)), true
+			}
+		}
+		return fmt.Sprintf("%s(%s)", goTypeName(t), n), true
+	case "bool":
+		if val == "true" || val == "false" {
+			return val, true
+		}
+	case "val":
+		switch {
+		case val == "VNil":
+			return "value(nil)", true
+		case strings.HasPrefix(val, "(VInt "):
+			n, ok := smtIntValue(strings.TrimSuffix(strings.TrimPrefix(val, "(VInt "), ")"))
+			if ok {
+				return "value(int(" + n + "))", true
+			}
+		case strings.HasPrefix(val, "(VBool "):
+			b := strings.TrimSuffix(strings.TrimPrefix(val, "(VBool "), ")")
+			if b == "true" || b == "false" {
+				return "value(" + b + ")", true
+			}
+		}
+	}
+	return "", false
+}
+
+// ValuesOf asks the solver for the values of terms in a model of the failed obligation.
+func (d *Discharger) ValuesOf(reg *Registry, o *Obligation, terms []string) (map[string]string, bool) {
+	script := assembleScript(reg, o, false, true, false)
+	script = strings.Replace(script, "(get-model)\n", "", 1)
+	// declarations of terms the pruned script does not mention
+	var extra strings.Builder
+	for _, dcl := range reg.Closure(strings.Join(terms, " ")) {
+		if dcl.Text != "" && !strings.Contains(script, dcl.Text) {
+			extra.WriteString(dcl.Text + "\n")
+		}
+	}
+	script = strings.Replace(script, "(check-sat)\n", extra.String()+"(check-sat)\n", 1)
+	for _, t := range terms {
+		script += fmt.Sprintf("(get-value (%s))\n", t)
+	}
+	sr := runSolver(context.Background(), solvers[0], script, d.Dir, "values_"+sanitize(trunc(o.Name, 50)), 10)
+	lines := strings.Split(strings.TrimSpace(sr.Output), "\n")
+	var clean []string
+	for _, l := range lines {
+		if !strings.HasPrefix(l, "WARNING") {
+			clean = append(clean, l)
+		}
+	}
+	if len(clean) == 0 || strings.TrimSpace(clean[0]) != "sat" {
+		return nil, false
+	}
+	rest := strings.Join(clean[1:], " ")
+	out := map[string]string{}
+	// each answer has the form ((term value))
+	for _, t := range terms {
+		key := "((" + t + " "
+		i := strings.Index(rest, key)
+		if i < 0 {
+			return nil, false
+		}
+		j := i + len(key)
+		depth := 0
+		k := j
+		for ; k < len(rest); k++ {
+			if rest[k] == '(' {
+				depth++
+			} else if rest[k] == ')' {
+				if depth == 0 {
+					break
+				}
+				depth--
+			}
+		}
+		out[t] = strings.TrimSpace(rest[j:k])
+	}
+	return out, true
+}
+
+func tryReplay(rep *report, a *aggObl, path string) bool {
+	f := a.Fail
+	if f == nil || f.Res.Status != "sat" || f.O == nil || f.O.Fn == nil {
+		return false
+	}
+	o := f.O
+	if o.Kind != "safe" && o.Kind != "post" {
+		return false
+	}
+	fn := o.Fn
+	if fn.Signature.Recv() != nil || len(fn.FreeVars) > 0 || fn.Signature.Variadic() {
+		return false
+	}
+	for _, p := range fn.Params {
+		if c := replayClass(p.Type()); c != "int" && c != "bool" && c != "val" {
+			return false
+		}
+	}
+	res := fn.Signature.Results()
+	for i := 0; i < res.Len(); i++ {
+		if replayClass(res.At(i).Type()) == "" {
+			return false
+		}
+	}
+	var reg *Registry
+	for _, j := range rep.ck.jobs {
+		if j.o == o {
+			reg = j.reg
+		}
+	}
+	if reg == nil {
+		return false
+	}
+	var terms []string
+	for _, in := range o.Inputs {
+		terms = append(terms, in.Term)
+	}
+	vals := map[string]string{}
+	if len(terms) > 0 {
+		v, ok := rep.dis.ValuesOf(reg, o, terms)
+		if !ok {
+			return false
+		}
+		vals = v
+	}
+	rec := &replayRecord{Function: rep.ck.P.FuncName(fn), Inputs: map[string]string{}}
+	var args []string
+	for _, p := range fn.Params {
+		var in *replayInput
+		for i := range o.Inputs {
+			if o.Inputs[i].Name == p.Name() {
+				in = &o.Inputs[i]
+			}
+		}
+		if in == nil {
+			return false
+		}
+		lit, ok := goLiteral(vals[in.Term], p.Type())
+		if !ok {
+			return false
+		}
+		rec.Inputs[p.Name()] = lit
+		args = append(args, lit)
+	}
+	// the Go test
+	var sb strings.Builder
+	pkgName := fn.Pkg.Pkg.Name()
+	fmt.Fprintf(&sb, "package %s\n\nimport (\n\t\"fmt\"\n\t\"testing\"\n)\n\n", pkgName)
+	fmt.Fprintf(&sb, "func TestGovcReplay(t *testing.T) {\n\tdefer func() {\n\t\tif r := recover(); r != nil {\n\t\t\tfmt.Printf(\"REPLAY-PANIC: %%v\\n\", r)\n\t\t}\n\t}()\n")
+	var rs []string
+	for i := 0; i < res.Len(); i++ {
+		rs = append(rs, fmt.Sprintf("r%d", i))
+	}
+	call := fmt.Sprintf("%s(%s)", fn.Name(), strings.Join(args, ", "))
+	if len(rs) > 0 {
+		fmt.Fprintf(&sb, "\t%s := %s\n", strings.Join(rs, ", "), call)
+	} else {
+		fmt.Fprintf(&sb, "\t%s\n", call)
+	}
+	for i := 0; i < res.Len(); i++ {
+		switch replayClass(res.At(i).Type()) {
+		case "int":
+			fmt.Fprintf(&sb, "\tfmt.Printf(\"REPLAY-RESULT %d int %%d\\n\", r%d)\n", i, i)
+		case "bool":
+			fmt.Fprintf(&sb, "\tfmt.Printf(\"REPLAY-RESULT %d bool %%v\\n\", r%d)\n", i, i)
+		case "err":
+			fmt.Fprintf(&sb, "\tfmt.Printf(\"REPLAY-RESULT %d err %%v\\n\", r%d != nil)\n", i, i)
+		case "val":
+			fmt.Fprintf(&sb, "\tswch%d := any(r%d)\n\tswitch v := swch%d.(type) {\n\tcase nil:\n\t\tfmt.Printf(\"REPLAY-RESULT %d val nil\\n\")\n\tcase int:\n\t\tfmt.Printf(\"REPLAY-RESULT %d val int %%d\\n\", v)\n\tcase bool:\n\t\tfmt.Printf(\"REPLAY-RESULT %d val bool %%v\\n\", v)\n\tdefault:\n\t\tfmt.Printf(\"REPLAY-RESULT %d val other %%T\\n\", v)\n\t}\n", i, i, i, i, i, i, i)
+		}
+	}
+	sb.WriteString("\tfmt.Println(\"REPLAY-DONE\")\n}\n")
+	rec.GoTest = sb.String()
+	dir := rep.ck.P.RepoDir
+	if fn.Pkg.Pkg.Path() == mainPath {
+		dir = filepath.Join(dir, "cmd/bcl")
+	}
+	rec.Dir = dir
+	out, ok := runReplayTest(rec.GoTest, dir)
+	rec.Output = out
+	if !ok {
+		rec.Verdict = "replay could not be run"
+		appendReplay(path, rec)
+		return false
+	}
+	confirmed := false
+	switch o.Kind {
+	case "safe":
+		if strings.Contains(out, "REPLAY-PANIC:") {
+			confirmed = true
+			rec.Verdict = "confirmed: the real code panics on the solver's input"
+		} else {
+			rec.Verdict = "not reproduced: the real code does not panic on the solver's input"
+		}
+	case "post":
+		if strings.Contains(out, "REPLAY-PANIC:") {
+			rec.Verdict = "the real code panics on the solver's input (postcondition not evaluated)"
+			confirmed = true
+			break
+		}
+		if o.Clause == nil {
+			rec.Verdict = "no clause attached"
+			break
+		}
+		verdict, script := groundCheck(rep, o, fn, rec, out)
+		rec.Ground = script
+		rec.Verdict = verdict
+		confirmed = strings.HasPrefix(verdict, "confirmed")
+	}
+	appendReplay(path, rec)
+	return confirmed
+}
+
+func runReplayTest(src, dir string) (string, bool) {
+	work := filepath.Join(verifDir, "work", "replay")
+	os.MkdirAll(work, 0o755)
+	tf := filepath.Join(work, fmt.Sprintf("replay_%d_test.go", os.Getpid()))
+	if err := os.WriteFile(tf, []byte(src), 0o644); err != nil {
+		return err.Error(), false
+	}
+	defer os.Remove(tf)
+	ov := map[string]any{"Replace": map[string]string{filepath.Join(dir, "zz_govc_replay_test.go"): tf}}
+	b, _ := json.Marshal(ov)
+	of := filepath.Join(work, fmt.Sprintf("overlay_%d.json", os.Getpid()))
+	os.WriteFile(of, b, 0o644)
+	defer os.Remove(of)
+	ctx, cancel := context.WithTimeout(context.Background(), 120*time.Second)
+	defer cancel()
+	cmd := exec.CommandContext(ctx, "go", "test", "-overlay", of, "-vet=off", "-count=1", "-timeout", "60s", "-run", "^TestGovcReplay$", "-v", ".")
+	cmd.Dir = dir
+	cmd.Env = append(os.Environ(), "GOFLAGS=-mod=mod", "GOPROXY=off", "GOSUMDB=off", "GOTOOLCHAIN=local")
+	out, _ := cmd.CombinedOutput()
+	s := string(out)
+	return s, strings.Contains(s, "REPLAY-DONE") || strings.Contains(s, "REPLAY-PANIC:")
+}
+
+var reResult = regexp.MustCompile(`(?m)^REPLAY-RESULT (\d+) (\w+) (.*)$`)
+
+// groundCheck instantiates the failed clause with the concrete inputs and the
+// outputs of the real code and lets the solver decide the ground formula.
+func groundCheck(rep *report, o *Obligation, fn *ssa.Function, rec *replayRecord, out string) (verdict string, script string) {
+	defer func() {
+		if r := recover(); r != nil {
+			verdict = fmt.Sprintf("clause could not be instantiated on concrete values (%v)", r)
+		}
+	}()
+	x := NewExec(rep.ck.P, rep.ck.C, o.Mode)
+	x.Eff = rep.ck.Eff
+	x.fn = fn
+	x.fname = rep.ck.P.FuncName(fn)
+	x.curPkg = fn.Pkg.Pkg
+	st := &State{cells: map[*Cell]*Value{}, heaps: map[string]string{}, hsort: map[string]string{}, ghost: map[string]*Value{}, callNo: map[string]int{}}
+	fr := &Frame{Fn: fn, Regs: map[ssa.Value]*Value{}, Allocs: map[*ssa.Alloc]*Pointer{}, Params: map[string]*Value{}}
+	st.frames = []*Frame{fr}
+	x.entry = st
+	env := x.envFor(st, st, fr)
+	lit := func(goLit string, t types.Type) *Value {
+		// goLit has the form T(n), true/false, value(...)
+		switch replayClass(t) {
+		case "int":
+			i := strings.Index(goLit, "(")
+			n := strings.TrimSuffix(goLit[i+1:], ")")
+			k := constant.MakeFromLiteral(strings.TrimPrefix(n, "-"), 5 /* token.INT */, 0)
+			if strings.HasPrefix(n, "-") {
+				k = constant.UnaryOp(13 /* token.SUB */, k, 0)
+			}
+			return &Value{Typ: t, K: k}
+		case "bool":
+			return &Value{Typ: t, K: constant.MakeBool(goLit == "true")}
+		case "val":
+			inner := strings.TrimSuffix(strings.TrimPrefix(goLit, "value("), ")")
+			switch {
+			case inner == "nil":
+				return &Value{T: "VNil", Typ: t}
+			case inner == "true" || inner == "false":
+				return &Value{T: "(VBool " + inner + ")", Typ: t}
+			case strings.HasPrefix(inner, "int("):
+				n := strings.TrimSuffix(strings.TrimPrefix(inner, "int("), ")")
+				if strings.HasPrefix(n, "-") {
+					return &Value{T: "(VInt (- " + n[1:] + "))", Typ: t}
+				}
+				return &Value{T: "(VInt " + n + ")", Typ: t}
+			}
+		}
+		panic("unsupported literal " + goLit)
+	}
+	for _, p := range fn.Params {
+		v := lit(rec.Inputs[p.Name()], p.Type())
+		env.vars[p.Name()] = v
+		fr.Params[p.Name()] = v
+	}
+	x.entryParams = fr.Params
+	rs := fn.Signature.Results()
+	resVals := make([]*Value, rs.Len())
+	for _, m := range reResult.FindAllStringSubmatch(out, -1) {
+		i, _ := strconv.Atoi(m[1])
+		if i >= rs.Len() {
+			continue
+		}
+		t := rs.At(i).Type()
+		switch m[2] {
+		case "int":
+			resVals[i] = lit(fmt.Sprintf("%s(%s)", goTypeName(t), strings.TrimSpace(m[3])), t)
+		case "bool":
+			resVals[i] = lit(strings.TrimSpace(m[3]), t)
+		case "err":
+			if strings.TrimSpace(m[3]) == "true" {
+				resVals[i] = &Value{T: "7", Typ: t}
+			} else {
+				resVals[i] = &Value{T: "0", Typ: t}
+			}
+		case "val":
+			f := strings.Fields(m[3])
+			switch {
+			case len(f) == 1 && f[0] == "nil":
+				resVals[i] = &Value{T: "VNil", Typ: t}
+			case len(f) == 2 && f[0] == "int":
+				resVals[i] = lit("value(int("+f[1]+"))", t)
+			case len(f) == 2 && f[0] == "bool":
+				resVals[i] = lit("value("+f[1]+")", t)
+			default:
+				return "the real code returned a value the replay cannot encode (" + m[3] + ")", ""
+			}
+		}
+	}
+	for i, v := range resVals {
+		if v == nil {
+			return fmt.Sprintf("result %d of the real code was not captured", i), ""
+		}
+	}
+	env = env.withResults(resVals, fn)
+	g := x.evalBool(env, o.Clause.Expr)
+	if len(st.heaps) > 0 {
+		return "the clause reads the heap: not decidable on scalar inputs alone", ""
+	}
+	var sb strings.Builder
+	body := "(assert " + g + ")\n"
+	for _, it := range st.items {
+		if it.Def != "" {
+			body = fmt.Sprintf("(define-fun %s () %s %s)\n", it.Def, it.Sort, it.Term) + body
+		}
+	}
+	for _, d := range x.Reg.Closure(body) {
+		if d.Text != "" {
+			sb.WriteString(d.Text + "\n")
+		}
+	}
+	sb.WriteString(body)
+	sb.WriteString("(check-sat)\n")
+	script = sb.String()
+	r := quickSolve(script, 10)
+	switch r {
+	case "unsat":
+		return "confirmed: the clause is false for the outputs the real code produced on the solver's input", script
+	case "sat":
+		return "not reproduced: the real code satisfies the clause on the solver's input", script
+	}
+	return "ground clause undecided (" + r + ")", script
+}
+
+func appendReplay(path string, rec *replayRecord) {
+	b, err := os.ReadFile(path)
+	if err != nil {
+		return
+	}
+	var m map[string]any
+	if json.Unmarshal(b, &m) != nil {
+		return
+	}
+	m["replay"] = rec
+	nb, _ := json.MarshalIndent(m, "", " ")
+	os.WriteFile(path, nb, 0o644)
+}
+
+// cmdReplay re-runs a recorded replay: govc replay <file.json>
+func cmdReplay(args []string) int {
+	if len(args) < 1 {
+		fmt.Fprintln(os.Stderr, "usage: govc replay <replay.json>")
+		return 2
+	}
+	b, err := os.ReadFile(args[0])
+	if err != nil {
+		fmt.Fprintln(os.Stderr, err)
+		return 2
+	}
+	var m struct {
+		Property   string        `json:"property"`
+		Obligation string        `json:"obligation"`
+		Clause     string        `json:"clause"`
+		Status     string        `json:"status"`
+		Solver     string        `json:"solver_output"`
+		Replay     *replayRecord `json:"replay"`
+	}
+	if err := json.Unmarshal(b, &m); err != nil {
+		fmt.Fprintln(os.Stderr, err)
+		return 2
+	}
+	fmt.Printf("property %s\nobligation %s\nclause %s\nstatus %s\n", m.Property, m.Obligation, m.Clause, m.Status)
+	if m.Replay == nil || m.Replay.GoTest == "" {
+		fmt.Println("no failing input recorded (no-failing-input-found): the obligation passed on the unchanged tree and is not discharged on this one; solver output follows")
+		fmt.Println(trunc(m.Solver, 2000))
+		return 1
+	}
+	fmt.Printf("function %s inputs %v\n", m.Replay.Function, m.Replay.Inputs)
+	out, ok := runReplayTest(m.Replay.GoTest, m.Replay.Dir)
+	for _, l := range strings.Split(out, "\n") {
+		if strings.HasPrefix(l, "REPLAY-") {
+			fmt.Println(l)
+		}
+	}
+	if !ok {
+		fmt.Println("replay test could not be run")
+		return 2
+	}
+	pick := func(o string) string {
+		var ls []string
+		for _, l := range strings.Split(o, "\n") {
+			if strings.HasPrefix(l, "REPLAY-") {
+				ls = append(ls, l)
+			}
+		}
+		return strings.Join(ls, "\n")
+	}
+	if pick(out) != pick(m.Replay.Output) {
+		fmt.Println("the code in the working tree now answers differently on this input than when the violation was recorded:")
+		fmt.Println("recorded:\n" + pick(m.Replay.Output))
+		fmt.Println("violation not reproduced on the current tree (re-run the check to decide the obligation)")
+		return 0
+	}
+	fmt.Println("recorded verdict:", m.Replay.Verdict)
+	if strings.Contains(out, "REPLAY-PANIC:") || strings.HasPrefix(m.Replay.Verdict, "confirmed") {
+		fmt.Println("VIOLATION reproduced on the real code")
+		return 1
+	}
+	return 0
+}
